@@ -8,6 +8,7 @@ package main
 
 import (
 	"errors"
+	"flag"
 	"fmt"
 	"sort"
 	"strconv"
@@ -43,6 +44,9 @@ type Case struct {
 	B     Src      `json:"b"`
 	Calls []string `json:"calls"`          // "H" | "N" | "R"
 	Tree  int      `json:"tree,omitempty"` // depth of the exhaustive call tree (0: none)
+	// Exact: compare every result with the model, also outside the property's premises (after a failed
+	// Reset, sources with a ghost in the middle, the value returned together with ok=false)
+	Exact bool `json:"exact,omitempty"`
 }
 
 // ---------------------------------------------------------------- selectors
@@ -131,7 +135,7 @@ type obs struct {
 	reset int // 0 nil, 1 ErrUnimplemented, 2 ErrDataLoss, 3 other
 }
 
-func doCall(m *iterable.Mixer[int], c string) (o obs) {
+func doCall(m *iterable.Mixer[int], c string, exact bool, s *hx.Sink) (o obs) {
 	defer func() {
 		if r := recover(); r != nil {
 			o = obs{kind: 'P'}
@@ -142,6 +146,13 @@ func doCall(m *iterable.Mixer[int], c string) (o obs) {
 		return obs{kind: 'H', b: m.HasNext()}
 	case "N":
 		v, ok := m.Next()
+		if !ok && v != 0 {
+			// the value that comes with ok=false is not specified ("may return default value"): not compared
+			s.Count("Next ok=false with a non-zero value")
+			if !exact {
+				v = 0
+			}
+		}
 		return obs{kind: 'N', v: int64(v), b: ok}
 	case "R":
 		err := m.Reset()
@@ -255,7 +266,7 @@ func runTree(c Case, s *hx.Sink) string {
 			key := ""
 			for _, cl := range path {
 				key += cl
-				d := doCall(m, cl).digit()
+				d := doCall(m, cl, c.Exact, s).digit()
 				if old, ok := seen[key]; ok && old != d {
 					s.DirectViolation(c.ID, "the same call pattern gave two different results", key)
 				}
@@ -281,23 +292,32 @@ func runTree(c Case, s *hx.Sink) string {
 		}
 	}
 	pre("", c.Tree)
-	// the first digit consumed is the least significant one
-	var sb strings.Builder
-	lead := true
-	for i := len(digits) - 1; i >= 0; i-- {
-		if lead && digits[i] == 0 {
-			continue
+	// 15 digits per 63-bit chunk; within a chunk the first digit consumed is the least significant one
+	var chunks []string
+	for i := 0; i < len(digits); i += 15 {
+		end := i + 15
+		if end > len(digits) {
+			end = len(digits)
 		}
-		lead = false
-		sb.WriteByte("0123456789abcdef"[digits[i]])
-		if digits[i] >= 14 {
+		var sb strings.Builder
+		for j := end - 1; j >= i; j-- {
+			if sb.Len() == 0 && digits[j] == 0 {
+				continue
+			}
+			sb.WriteByte("0123456789abcdef"[digits[j]])
+		}
+		if sb.Len() == 0 {
+			chunks = append(chunks, "0")
+		} else {
+			chunks = append(chunks, "0x"+sb.String())
+		}
+	}
+	for _, d := range digits {
+		if d >= 14 {
 			s.Count("tree digit:panic or outside the code")
 		}
 	}
-	if lead {
-		return "0%N"
-	}
-	return "0x" + sb.String() + "%N"
+	return "(" + hx.List(chunks) + ")%uint63"
 }
 
 func runCase(c Case, s *hx.Sink) string {
@@ -305,19 +325,19 @@ func runCase(c Case, s *hx.Sink) string {
 	if len(c.Calls) > 0 {
 		m := newMixer(c)
 		for _, cl := range c.Calls {
-			o := doCall(m, cl)
+			o := doCall(m, cl, c.Exact, s)
 			steps = append(steps, o.step(cl))
 			s.Count("linear call " + cl + ": " + o.class())
 		}
 	}
-	tree := "0%N"
+	tree := "[]"
 	if c.Tree > 0 {
 		tree = runTree(c, s)
 	}
 	s.Count("sel:" + c.Sel)
 	s.Count("kind:" + c.Kind)
-	return fmt.Sprintf("mkCase %s %s %s %s %s %s %s", hx.N(c.ID), selCoq[c.Sel], coqSrc(c.A), coqSrc(c.B),
-		hx.List(steps), hx.Nat(c.Tree), tree)
+	return fmt.Sprintf("mkCase %s %s %s %s %s %s %s %s", hx.N(c.ID), selCoq[c.Sel], coqSrc(c.A), coqSrc(c.B),
+		hx.Bool(c.Exact), hx.List(steps), hx.Nat(c.Tree), tree)
 }
 
 func nontrivial(c Case) bool {
@@ -414,9 +434,31 @@ func lenClass(n int) string {
 	return "21..60"
 }
 
+// tailOnly turns every ghost that is not the last item into an ordinary item
+func tailOnly(s Src) Src {
+	items := append([]Item{}, s.Items...)
+	for j := range items {
+		if j < len(items)-1 {
+			items[j].G = false
+		}
+	}
+	s.Items = items
+	return s
+}
+
+func isTailOnly(items []Item) bool {
+	for j, it := range items {
+		if it.G && j < len(items)-1 {
+			return false
+		}
+	}
+	return true
+}
+
 func main() {
+	exact := flag.Bool("exact", false, "compare every result with the model, also outside the property's premises")
 	fl := hx.ParseFlags()
-	s := hx.NewSink(fl, "From Coq Require Import List ZArith NArith.\nFrom GL Require Import model.Mixer run.Run_C18.\nImport ListNotations.\nOpen Scope Z_scope.\n", "case")
+	s := hx.NewSink(fl, "From Coq Require Import List ZArith NArith Uint63.\nFrom GL Require Import model.Mixer run.Run_C18.\nImport ListNotations.\nOpen Scope Z_scope.\n", "case")
 	if fl.From != "" {
 		for _, c := range hx.ReadCases[Case](fl.From) {
 			if c.Kind == "" {
@@ -432,6 +474,10 @@ func main() {
 	emit := func(c Case) {
 		id++
 		c.ID = id
+		c.Exact = *exact
+		if !c.Exact {
+			c.A, c.B = tailOnly(c.A), tailOnly(c.B)
+		}
 		if c.Calls == nil {
 			c.Calls = []string{}
 		}
@@ -523,9 +569,9 @@ func main() {
 	}
 
 	// D. every pair of short sequences x every selector: the complete call tree
-	allDepth, someDepth, someOneIn := 4, 6, 16
+	allDepth, someDepth, someOneIn := 5, 6, 8
 	if thorough {
-		allDepth, someDepth, someOneIn = 6, 7, 64
+		allDepth, someDepth, someOneIn = 7, 8, 16
 	}
 	ci = 0
 	for _, sel := range selNames {
@@ -546,6 +592,15 @@ func main() {
 		advSels, advDepth = selNames, 5
 	}
 	advSeqs := seqs([]Item{{V: 1}, {V: 2}, {V: 0, G: true}}, 2) // 13 sequences
+	if !*exact {                                                // 10 with the ghost only in the last position
+		var keep [][]Item
+		for _, q := range advSeqs {
+			if isTailOnly(q) {
+				keep = append(keep, q)
+			}
+		}
+		advSeqs = keep
+	}
 	for _, sel := range advSels {
 		for _, a := range advSeqs {
 			for _, b := range advSeqs {
